@@ -19,6 +19,7 @@ META = {
     "assumptions": [],
 }
 META["explanation"] += " " + "(ZB-past, shared with C01/C17) no raw access to the stream's buffer in the formatter is provably at or beyond Length(), or in front of started_at, on some path."
+META["explanation"] += " " + "(PR-point) in formatStringNumberFixed / formatStringNumberDefault every loop that skips zero digits while the decimal-point position is in scope is bounded by that position, and the count of zeros written back after a carry is not taken from the caller's estimated digit count."
 
 
 def run(ctx):
@@ -224,4 +225,93 @@ def run(ctx):
     rules.append(rule_borrow(ctx, m, files=["Digit.hpp"], extra_fns=["Qentem::StringStream::InsertAt", "Qentem::String::InsertAt"]))
     from rules.common import rule_stream_past
     rules.append(rule_stream_past(ctx, m))
+    rules.append(rule_point_bound(ctx, m))
     return rules
+
+
+
+def rule_point_bound(ctx, m):
+    """PR-point: the formatters work on the reversed digit string with a cursor `index`; the position of the decimal point is
+    fixed (started_at + fraction_length).  Trailing zeros of the FRACTION may be skipped, digits of the integer part may not:
+    (a) every loop that advances the cursor over zero digits while the point position is in scope is bounded by that position
+    (else 100.04 at one decimal loses the zeros of "100" and prints with a different magnitude);
+    (b) where zeros are written back in front of the cursor after a carry (the loop `--index; storage[index] = '0'`), their count is
+    computed from the point position or from the lengths of the string, not from the ESTIMATED digit count the caller passes in
+    (the estimate is one short for 10.x, 100.x, 1000.x ...)."""
+    r = Rule("PR-point", "zero digits are skipped only up to the decimal point, and restored zeros are counted from it", floor=4)
+    for q in ("Qentem::Digit::formatStringNumberFixed", "Qentem::Digit::formatStringNumberDefault"):
+        fs = [f for f in m.fns(q, required=False) if not f.inst and f.cfg]
+        if not fs:
+            r.broke("%s not found" % q)
+            continue
+        f = fs[0]
+        ctx.note_fn(f)
+        # the decimal-point position: a local initialised from a sum that mentions the fraction-length parameter
+        frac = [p_ for p_ in f.params if "fraction" in p_["n"]]
+        est = [p_ for p_ in f.params if "calculated" in p_["n"] or "digits" in p_["n"]]
+        points = {}
+        for x in astq.nodes_of(f, "DeclStmt"):
+            for d in f.nodes[x]["decls"]:
+                if "d" in d and d.get("init", -1) >= 0 and frac and any(f.nodes[y].get("d") == frac[0]["d"] for y in f.walk(d["init"])) and \
+                        f.nodes[f.strip_casts(d["init"])]["k"] == "BinaryOperator" and f.nodes[f.strip_casts(d["init"])]["op"] == "+":
+                    points[d["d"]] = (d["n"], x)
+        if not points:
+            r.broke("%s: the local holding the position of the decimal point was not found" % q)
+            continue
+        par = f.parents()
+
+        def in_scope(decl_stmt, node):
+            """the DeclStmt precedes the node inside one of the node's enclosing compound statements"""
+            up = node
+            while up is not None:
+                p_ = par.get(up)
+                if p_ is not None and f.nodes[p_]["k"] == "CompoundStmt":
+                    ch = f.nodes[p_].get("ch", [])
+                    if decl_stmt in ch and up in ch and ch.index(decl_stmt) < ch.index(up):
+                        return True
+                up = p_
+            return False
+        for w in astq.nodes_of(f, "WhileStmt"):
+            cond = f.nodes[w].get("cond", -1)
+            if cond is None or cond < 0:
+                continue
+            ct = f.text(cond)
+            if not ("Zero" in ct and "==" in ct and "*" in ct):
+                continue
+            vis = [(nm, st) for (did, (nm, st)) in points.items() if in_scope(st, w)]
+            if not vis:
+                continue      # no point position yet (the exponent form drops the point altogether)
+            uses = any(f.nodes[y].get("d") in points for y in f.walk(cond))
+            r.ob(f.q, "while %s" % ct[:70], uses, "the skip of zero digits is bounded by `%s`" % vis[0][0] if uses else
+                 "zero digits are skipped without regard to `%s`: zeros of the integer part are dropped with the trailing zeros of the fraction (100.04 at one decimal prints as 1000)" % vis[0][0], f.loc(w))
+        # (b) zeros written back: the counter local that controls a loop storing Zero at --index
+        for w in astq.nodes_of(f, "WhileStmt"):
+            body_t = " ".join(f.text(y) for y in f.walk(f.nodes[w].get("body", w)) if f.nodes[y]["k"] in ("BinaryOperator", "UnaryOperator"))
+            cond = f.nodes[w].get("cond", -1)
+            if cond is None or cond < 0 or "Zero" not in body_t or "--" not in body_t:
+                continue
+            cn = [f.nodes[y] for y in f.walk(cond) if f.nodes[y]["k"] == "DeclRefExpr" and f.nodes[y].get("dk") == "var"]
+            if len(cn) != 1:
+                continue
+            counter = cn[0]["d"]
+            # all assignments to the counter: none may read the estimate parameter (directly or through a local)
+            tainted = set(p_["d"] for p_ in est)
+            changed = True
+            while changed:
+                changed = False
+                for x in astq.nodes_of(f, "DeclStmt"):
+                    for d in f.nodes[x]["decls"]:
+                        if "d" in d and d["d"] not in tainted and d.get("init", -1) >= 0 and any(f.nodes[y].get("d") in tainted for y in f.walk(d["init"])):
+                            tainted.add(d["d"])
+                            changed = True
+            bad = None
+            for x in f.walk():
+                n = f.nodes[x]
+                if n["k"] == "BinaryOperator" and n["op"] == "=" and f.nodes[f.strip(n["ch"][0])].get("d") == counter:
+                    if any(f.nodes[y].get("d") in tainted for y in f.walk(n["ch"][1])):
+                        bad = x
+            r.ob(f.q, "zeros restored in front of the cursor (%s)" % cn[0]["n"], bad is None,
+                 "their count is computed from the point position and the lengths of the digit string" if bad is None else
+                 "`%s` takes the count from the caller's ESTIMATE of the number of integer digits, which is one short just above a power of ten (119.95 at one decimal prints as 1200)" % f.text(bad)[:60],
+                 f.loc(bad) if bad is not None else f.loc(w))
+    return r
